@@ -151,7 +151,7 @@ func (en *Engine) WriteStats() {
 
 // knownDead: park labels that the current code never reaches by construction (PushTask does not call the
 // context a third / fourth time while it is live).
-var knownDead = map[string]bool{"pushhook/call2": true, "pushhook/call3": true}
+var knownDead = map[string]bool{"pushhook/call2": true, "pushhook/call3": true, "goexit/wait-returned": true, "goexit/long-task-running": true}
 
 // Degraded lists the reasons why this run's tie is weaker than it claims: the context call sites are not the
 // expected ones, a class of park points was never reached, or a family did not achieve its set-up. The caller
